@@ -217,4 +217,16 @@ theorem C10_wiring :
     Sso.Generated.skel_okta_verifyEmailWithAccessToken =
       ["if{", "return", "}", "call:GetUserProfile", "if{", "return", "}", "if{", "call:New", "return", "}", "if{", "call:New", "return", "}", "return"] := by decide
 
+/-- Tie (T1), second wave: helpers, stores and second callers on this property's path (auth_redeemCode, auth_jwtDecodeSegment, cognito_Redeem, cognito_verifyEmailWithAccessToken) — call/branch/store skeletons
+regenerated from the source on every run against the expectations frozen here. -/
+theorem C10_wiring2 :
+    Sso.Generated.skel_auth_redeemCode =
+      ["call:GetRedirectURI", "call:Redeem", "if{", "return", "}", "if{", "call:Errorf", "return", "}", "return"] ∧
+    Sso.Generated.skel_auth_jwtDecodeSegment =
+      ["call:len", "if{", "call:Repeat", "}", "call:DecodeString", "return"] ∧
+    Sso.Generated.skel_cognito_Redeem =
+      ["if{", "return", "}", "call:Add", "call:Add", "call:Add", "call:Add", "call:Add", "call:String", "call:amazonCognitoRequest", "if{", "return", "}", "call:verifyEmailWithAccessToken", "if{", "return", "}", "call:Duration", "call:ExtendDeadline", "call:ExtendDeadline", "return"] ∧
+    Sso.Generated.skel_cognito_verifyEmailWithAccessToken =
+      ["if{", "return", "}", "call:GetUserProfile", "if{", "return", "}", "if{", "call:New", "return", "}", "return"] := by decide
+
 end Sso.AuthN
